@@ -1868,6 +1868,14 @@ async fn conn_death_scenario<B: Payload>(plan: &ErrPlan, obs: &ObsCell, stage: &
     let mut op = rig::opener::<B>(&aconn);
     let res = rig::opener_open_bidi::<B>(&mut op).await;
     check_stream_err(obs, cause, "opener.poll_open_bidi", res.as_ref().map(|_| "a stream".to_string()).map_err(|e| e), want);
+    let res = rig::opener_open_send::<B>(&mut op).await;
+    check_stream_err(obs, cause, "opener.poll_open_send", res.as_ref().map(|_| "a stream".to_string()).map_err(|e| e), want);
+    // a second opener, cloned from the first: the same outcome through both paths
+    let mut op2 = op.clone();
+    let res = rig::opener_open_send::<B>(&mut op2).await;
+    check_stream_err(obs, cause, "cloned opener.poll_open_send", res.as_ref().map(|_| "a stream".to_string()).map_err(|e| e), want);
+    let res = rig::opener_open_bidi::<B>(&mut op2).await;
+    check_stream_err(obs, cause, "cloned opener.poll_open_bidi", res.as_ref().map(|_| "a stream".to_string()).map_err(|e| e), want);
     stage.set("idle stream after");
     // an untouched stream: send_data only buffers, poll_ready must report the connection error
     let sd = quic::SendStream::<B>::send_data(&mut idle, data_frame::<B>(b"late", &mut rng));
